@@ -69,6 +69,8 @@ func rulesC11(cx *Ctx) []Obligation {
 	}
 	var evs []event
 	challengerCell := ""
+	freshOK, freshWhy := false, "the transcript events do not act on a challenger object"
+	var freshSite string
 	for _, rec := range r.Recs {
 		if rec.Kind != "call" || (rec.Callee != observe && rec.Callee != squeeze) || len(rec.Args) == 0 {
 			continue
@@ -77,7 +79,22 @@ func rulesC11(cx *Ctx) []Obligation {
 		if len(rec.Chain) == 0 || rec.Chain[0].Site != derive.Site {
 			continue
 		}
+		if rec.Args[0] != nil && rec.Args[0].Cell == nil {
+			freshWhy = "the challenger is not created by the derivation itself (it is " + rec.Args[0].short(1) + "): state left by an earlier derivation would leak into this transcript"
+			freshSite = r.site(rec)
+		}
 		if rec.Args[0] != nil && rec.Args[0].Cell != nil {
+			// the challenger must be the object returned by a challenger.NewChip call made inside the derivation
+			for _, nc := range r.Recs {
+				if nc.Kind == "call" && nc.Callee != nil && nc.Callee.Name() == "NewChip" && fnPkgShort(nc.Callee) == "challenger" && nc.Ret != nil && nc.Ret.Cell != nil &&
+					nc.Ret.Cell.find() == rec.Args[0].Cell.find() && len(nc.Chain) == 1 && nc.Chain[0].Site == derive.Site && nc.Must {
+					freshOK = true
+					freshSite = r.site(nc)
+				}
+			}
+			if !freshOK {
+				freshWhy = "the challenger used by the derivation is not created (challenger.NewChip) inside the derivation on every path"
+			}
 			id := fmt.Sprintf("c%d", rec.Args[0].Cell.find().ID)
 			if challengerCell == "" {
 				challengerCell = id
@@ -118,6 +135,35 @@ func rulesC11(cx *Ctx) []Obligation {
 			}
 		}
 		evs = append(evs, event{label, rec})
+	}
+	{
+		k := "C11/O11.1/fresh-challenger"
+		d := "every challenge derivation starts from a fresh sponge: the challenger on which all events act is created inside the derivation"
+		if freshOK {
+			obs = append(obs, good(k, d, freshSite))
+		} else {
+			obs = append(obs, bad(k, d, freshWhy, freshSite))
+		}
+	}
+	// hashes are absorbed through their canonical bit decomposition
+	for _, fam := range []struct{ label, pat string }{{"digest", vd + ".CircuitDigest"}, {"WiresCap", proof + ".WiresCap[]"}, {"PlonkZsPartialProductsCap", proof + ".PlonkZsPartialProductsCap[]"}, {"QuotientPolysCap", proof + ".QuotientPolysCap[]"}, {"CommitPhaseMerkleCaps", proof + ".OpeningProof.CommitPhaseMerkleCaps[][]"}} {
+		k := "C11/O11.5/canonical-hash-bits/" + fam.label
+		d := "a BN254 hash is absorbed as limbs of its canonical bit decomposition: api.ToBinary(hash) without a width (which includes the comparison with the field modulus), applied to the hash itself on every path"
+		sites, why := r.findCovering("tobin", 0, fam.pat, func(rec *Rec) bool { return rec.Width == nil })
+		if len(sites) > 0 {
+			obs = append(obs, good(k, d, sites...))
+			continue
+		}
+		for _, rec := range r.Recs {
+			if rec.Kind == "tobin-unconstrained" && len(rec.Args) > 0 && rec.Args[0] != nil {
+				for _, p := range rec.Args[0].Dir {
+					if patRe(fam.pat).MatchString(p) {
+						why = "the decomposition at " + r.site(rec) + " is called with an option that drops constraints (OmitModulusCheck / WithUnconstrainedOutputs): hash + r has other bits and is accepted too"
+					}
+				}
+			}
+		}
+		obs = append(obs, bad(k, d, why))
 	}
 	want := []string{"observe:digest", "observe:pi-hash", "observe:WiresCap", "squeeze→PlonkBetas", "squeeze→PlonkGammas",
 		"observe:PlonkZsPartialProductsCap", "squeeze→PlonkAlphas", "observe:QuotientPolysCap", "squeeze→PlonkZeta", "observe:Openings",
